@@ -752,6 +752,68 @@ def sec_fit(R: Run, M, Affine):
                      {"pts": [list(p) for p in pts], "cc": cc.tolist()}, f"max error {err} (scale {scale})", sig=f"polyfit|n{n}")
         except Exception as ex:  # pylint: disable=broad-except
             R.oracle(False, "poly2d-fit-raises", {"pts": [list(p) for p in pts]}, f"{ex!r}")
+    # regular grids and other point sets with a point exactly on the centroid (GCP grids look like this)
+    from numpy.polynomial.polynomial import polyval2d as _pv2
+
+    def grid_case(pts, cc, tag):
+        aa = np.asarray(pts, dtype="float64")
+        bb = _pv2(aa[:, 0], aa[:, 1], cc).T
+        case = {"pts": [list(map(float, q)) for q in pts], "cc": np.asarray(cc).tolist()}
+        try:
+            P = M.Poly2d.fit(aa, bb)
+            got = P(aa)
+            err = float(np.abs(got - bb).max()) if np.all(np.isfinite(got)) else float("inf")
+            scale = max(1.0, float(np.abs(bb).max()))
+            R.oracle(err <= 1e-7 * scale, "poly-fit-fails-centroid-point", case,
+                     f"Poly2d.fit on a point set containing its centroid: max error {err} (scale {scale})", sig=f"polyfit|{tag}")
+        except Exception as ex:  # pylint: disable=broad-except
+            R.oracle(False, "poly-fit-fails-centroid-point", case,
+                     f"Poly2d.fit on a point set containing its centroid raised {ex!r}", sig=f"polyfit|{tag}")
+        try:
+            X, A = M.norm_xy(aa.copy())
+            dist = np.sqrt((X ** 2).sum(axis=1))
+            ok = (np.all(np.isfinite(X)) and abs(float(dist.mean()) - math.sqrt(2)) < 1e-9 and float(np.abs(X.mean(axis=0)).max()) < 1e-9
+                  and float(np.abs(np.asarray([A * (float(x), float(y)) for x, y in aa]) - X).max()) < 1e-9)
+            R.oracle(ok, "norm-xy-contract", case,
+                     f"norm_xy: mean distance {float(dist.mean())!r} (want sqrt 2), mean {X.mean(axis=0)!r}, A={tuple(A)[:6]}", sig=f"normxy|{tag}")
+        except Exception as ex:  # pylint: disable=broad-except
+            R.oracle(False, "norm-xy-contract", case, f"norm_xy raised {ex!r}", sig=f"normxy|{tag}")
+
+    def rnd_cc(k, affine_only=False):
+        cc = np.zeros((k, k, 2))
+        for i in range(k):
+            for j in range(k):
+                if affine_only and i + j > 1:
+                    continue
+                cc[i, j, :] = [rng.randint(-16, 16) / 8 / (10 ** (i + j)), rng.randint(-16, 16) / 8 / (10 ** (i + j))]
+        return cc
+
+    grid_case([(x, y) for y in range(3) for x in range(3)], np.asarray([[[1, 1], [0, 2]], [[2, 0], [0, 0]]], dtype="float64"), "grid3x3-2x+1")
+    for _ in range(R.pick(60, 600)):
+        nx, ny = rng.choice([3, 5, 7]), rng.choice([3, 5, 7])        # odd x odd grids contain their centroid
+        sx, sy = rng.choice([1, 10, 100, 0.5]), rng.choice([1, 10, 100, 0.5])
+        ox, oy = rng.randint(-1000, 1000), rng.randint(-1000, 1000)
+        pts = [(ox + sx * i, oy + sy * j) for j in range(ny) for i in range(nx)]
+        grid_case(pts, rnd_cc(3), f"grid{min(nx, ny)}")
+    for _ in range(R.pick(40, 400)):
+        # symmetric cross / square + centre, n = 5 (bilinear fit) ; triangle + centroid, n = 4
+        c = (rng.randint(-50, 50), rng.randint(-50, 50))
+        d = rng.randint(1, 20)
+        if rng.random() < 0.5:
+            pts = [(c[0] - d, c[1] - d), (c[0] + d, c[1] - d), (c[0] - d, c[1] + d), (c[0] + d, c[1] + d), c]
+        else:
+            pts = [(c[0] - 3 * d, c[1]), (c[0] + 3 * d, c[1] - 3 * d), (c[0], c[1] + 3 * d), c]
+        grid_case(pts, rnd_cc(2), "centre-point")
+    for _ in range(R.pick(40, 400)):
+        n = rng.randint(3, 12)
+        pts = [(rng.uniform(-1e4, 1e4), rng.uniform(-1e4, 1e4)) for _ in range(n)]
+        try:
+            X, A = M.norm_xy(np.asarray(pts))
+            dist = np.sqrt((X ** 2).sum(axis=1))
+            ok = abs(float(dist.mean()) - math.sqrt(2)) < 1e-9 and float(np.abs(X.mean(axis=0)).max()) < 1e-9
+        except Exception:  # pylint: disable=broad-except
+            ok = False
+        R.oracle(ok, "norm-xy-contract", {"pts": [list(q) for q in pts]}, "norm_xy: mean distance is not sqrt(2) / mean not 0", sig="normxy|rnd")
     r = guarded(lambda: str(M.Poly2d.fit(np.zeros((2, 2)), np.zeros((2, 2)))))
     R.oracle(r == "ERR:ValueError", "poly2d-fit-accepts-two-points", {}, r, trivial=True)
 
